@@ -51,7 +51,7 @@ class Model:
         self.entries: dict[int, tuple[Value, Any]] = {}
 
 
-_SWAP = {'TA': 'TA2', 'TA2': 'TA', 'Node': 'NodeX', 'NodeX': 'Node', 'TB': 'TC', 'TC': 'TB', 'TD': 'TA', 'TN': 'TN1',
+_SWAP = {'TW': 'TA', 'TA': 'TA2', 'TA2': 'TA', 'Node': 'NodeX', 'NodeX': 'Node', 'TB': 'TC', 'TC': 'TB', 'TD': 'TA', 'TN': 'TN1',
          'TN1': 'TN', 'TN2': 'TN', 'TF': 'TA', 'TZ': 'TA', 'TR': 'TA'}
 _NAME_OF = None
 
@@ -104,7 +104,7 @@ class HistoryCheck(Check):
     quick_runs = 800
     thorough_runs = 8000
     providers = ['local', 'fsspec-local', 'fsspec-mem', 'none']
-    types = [('TA', 4), ('TB', 2), ('TD', 3), ('TN', 2), ('TP', 2), ('TN1', 1), ('TZ', 1)]
+    types = [('TA', 4), ('TB', 2), ('TD', 3), ('TN', 2), ('TP', 2), ('TN1', 1), ('TZ', 1), ('TW', 1)]
     rich = False
     max_ops = 10
     rule = ('histories of up to 10 operations (run / run with bust_cache / uncache / cached_tasks / probe-run / new Lab) over a generated '
@@ -429,6 +429,6 @@ class C09(HistoryCheck):
     id = 'C09'
     rich = True
     providers = ['local', 'fsspec-local', 'local', 'fsspec-mem']
-    types = [('TA', 3), ('TD', 3), ('Node', 3), ('NodeX', 3), ('TA2', 3), ('TP', 2), ('TN', 1), ('TB', 1)]
+    types = [('TA', 3), ('TD', 3), ('Node', 3), ('NodeX', 3), ('TA2', 3), ('TP', 2), ('TN', 1), ('TB', 1), ('TW', 2)]
     expected_probes = ('op-run', 'op-probe', 'listed-tasks', 'provider-local', 'provider-fsspec-local')
     rule = HistoryCheck.rule + '; universes draw parameter trees from the supported grammar (edge strings, big ints, inf floats, enums, nested tuples/dicts, nested tasks), a prefix-named pair of types (Node/NodeX), a same-named type in a second module and two cache formats'
